@@ -8,6 +8,7 @@ mod c04;
 mod c05;
 mod c06;
 mod c15;
+mod c16;
 mod c17;
 mod walk;
 
@@ -49,6 +50,7 @@ fn main() {
         "c05" => c05::run(&o, deck),
         "c06" => c06::run(&o, deck),
         "c15" => c15::run(&o, deck),
+        "c16" => c16::run(&o, deck),
         "c17" => c17::run(&o, deck),
         "walk" => walk::run(&o, deck, "walk"),
         x => {
